@@ -43,7 +43,7 @@ class C01(Scenario):
     def generate(self, rng, tier, profile):
         big = tier == "thorough"
         regime = "awkward" if profile.endswith("awkward") else "dyadic"
-        opts = specmod.merge_opts(depth=5 if big else 4, max_nodes=40 if big else 24, regime=regime, count_transform=0.08)
+        opts = specmod.merge_opts(depth=5 if big else 4, max_nodes=40 if big else 24, regime=regime, count_transform=0.08, count_same_transform=0.06)
         sp = specmod.gen_spec(rng.fork("tree"), opts)
         crit = specmod.critical_values(sp, regime)
         d = rng.fork("data")
